@@ -1,8 +1,10 @@
 """C02 — see DESIGN.md §4."""
 from ..spec import run_specs
+from ..depth import run_D2
 
 EXPLANATION = 'Structural necessary conditions for the DIE forest: the unit-header reader consumes exactly the reviewed field sequence per version/unit type; EntriesRaw.depth is stored only by the four reviewed shapes; end_offset is fixed at construction and the raw reader is only ever advanced; duplicate abbreviation codes reach the error exit. Forest equality over generated inputs is NOT decided.'
 
 
 def run(rep, ctx):
     run_specs(rep, ctx, 'C02')
+    run_D2(rep, ctx.g)
